@@ -18,16 +18,25 @@ func init() {
 			"C04-WHO only Valid and exist call the recursive walker, exist is reached only for the rules exist and required. Nil sub-objects are skipped silently (shared with C13). The recursion is the same function, so the inductive step is the whole argument for arbitrary depth.",
 		Assume:  []string{"acyclic object graphs (property's exclusion)"},
 		Trusted: []string{"go/types", "go/ssa"},
-		Run:     func(c *Ctx) { runC04(c); sharedDeclaredRules(c); runExportPred(c, "C04-EXPORT"); base(c, "STATE", "LOOP"); runToStrCases(c, "C04-PATHKEY"); runC04Strip(c, "C04-STRIP"); runFieldIdentity(c, "C04-FIELDID"); runExemptType(c, "C04-EXEMPT") },
+		Run: func(c *Ctx) {
+			runC04(c)
+			sharedDeclaredRules(c)
+			runExportPred(c, "C04-EXPORT")
+			base(c, "STATE", "LOOP")
+			runToStrCases(c, "C04-PATHKEY")
+			runC04Strip(c, "C04-STRIP")
+			runFieldIdentity(c, "C04-FIELDID")
+			runExemptType(c, "C04-EXEMPT")
+		},
 	})
 }
 
 type descend struct {
-	we               walkEvent
-	label, value     string
+	we                walkEvent
+	label, value      string
 	flagKnown, strict bool
-	kset, pkset      uint32
-	hasP             bool
+	kset, pkset       uint32
+	hasP              bool
 }
 
 func descends(wl *walkLayers) []descend {
@@ -397,8 +406,6 @@ func runC04Nil(c *Ctx, wl *walkLayers) {
 	}
 }
 
-
-
 func structOf(t types.Type) *types.Struct {
 	if t == nil {
 		return nil
@@ -509,7 +516,6 @@ func runC04Strip(c *Ctx, rule string) {
 		c.Check(len(bad) == 0, rule, fnName(fn), "strip", fn.Pos(), "loop exits only with Kind() != Ptr", uniqJoin(bad, 2))
 	}
 }
-
 
 // normIndexText: an integer index rendered with strconv.Itoa is the same text as ToStr of it.
 func normIndexText(s string) string {
